@@ -515,9 +515,7 @@ func runLLMNR(w *rt.World, res *hx.Result, realServer, realClient bool) *hx.Viol
 			return &hx.Violation{Class: "serve_not_returned", Key: sysName,
 				Msg: "ListenAndServe had not returned 2 simulated seconds after Close(); its task is " + lsTask.StateString()}
 		}
-		if lsErr != nil {
-			return &hx.Violation{Class: "serve_error", Key: sysName, Msg: "ListenAndServe returned an error after Close(): " + lsErr.Error()}
-		}
+		_ = lsErr // what ListenAndServe returns after Close() is not pinned down by the statement (nil today; an ErrServerClosed-style error would be just as fine)
 	}
 	if realClient {
 		if closer == nil {
